@@ -555,6 +555,10 @@ class RZILTransformer(Transformer):
                 Branch("branch", cond=items[0], then=Empty(""), otherwise=hybrid.stmt)
             )
 
+        if then_p.value_type != else_p.value_type:
+            # C11 6.5.15: usual arithmetic conversions (promotion first) on the second and third operand.
+            then_p = self.promotion_cast(then_p)
+            else_p = self.promotion_cast(else_p)
         then_p, else_p = self.cast_operands(a=then_p, b=else_p, immutable_a=False)
         return self.add_op(Ternary(f"cond", items[0], then_p, else_p))
 
